@@ -104,6 +104,7 @@ def cases(tier, seed, shard, nshards):
                 k += 1
                 if k % nshards == shard:
                     yield {"k": "stmt", "d": d, "s": name, "pair": list(pair)}
+                    yield {"k": "stmt", "d": d, "s": name, "pair": list(pair), "twin": True}
     n = (16000 if tier == "quick" else 300000) // nshards
     for _ in range(n):
         yield {"k": "random", "seed": rnd.getrandbits(40), "pair": list(rnd.choice(PAIRS[:6]))}
@@ -288,6 +289,17 @@ def _stmts():
     def returning(Q, t, o):
         return reg["PostgreSQLQuery"].into(t).insert(1).returning(t.id, t.a + 1)
 
+    def join_collate(Q, t, o):
+        return Q.from_(t).select(t.a).join(o).on(t.name == o.name, collate="utf8_bin").where(t.b > 1)
+
+    def join_collate_other(Q, t, o):
+        # the join does not mention the replaced table at all
+        v = T("fourth")
+        return Q.from_(t).select(t.a).join(o).on(o.id == t.id).join(v).on(v.k == o.k, collate="nocase")
+
+    def update_join_collate(Q, t, o):
+        return Q.update(o).join(t).on(o.id == t.id, collate="binary").set(o.a, t.a)
+
     def returning_delete(Q, t, o):
         PG = reg["PostgreSQLQuery"]
         return PG.from_(t).delete().where(t.a == 1).returning(t.id, t.a + 1)
@@ -352,7 +364,7 @@ STATEMENTS = ["sel_from", "sel_all_clauses", "sel_join_item", "sel_join_criterio
               "sel_for_update", "insert_values", "insert_select", "insert_into_target", "upsert", "upsert_conflict_where", "update_set",
               "update_set_value_other", "update_join", "delete", "returning", "distinct_on", "prewhere", "rollup", "setop",
               "sel_twin_terms", "sel_twin_terms_where", "sel_subquery_list", "sel_subquery_operands",
-              "returning_delete", "returning_delete_join", "returning_update", "returning_insert_select", "distinct_on_expr", "analytic_expr_keys"]
+              "join_collate", "join_collate_other", "update_join_collate", "returning_delete", "returning_delete_join", "returning_update", "returning_insert_select", "distinct_on_expr", "analytic_expr_keys"]
 
 
 def run_stmt(case, mon):
@@ -384,8 +396,10 @@ def run_stmt(case, mon):
                 out.append("<exc:%s>" % type(e).__name__)
         return out
     before = R(a)
+    # the table to replace is named by an equal, separately constructed object (tables compare by value)
+    t_old_twin = mk_table(case["pair"][0], "old")
     try:
-        r = a.replace_table(t_old, t_new)
+        r = a.replace_table(t_old_twin if case.get("twin") else t_old, t_new)
     except Exception as ex:
         mon.violation(key + ":raises:" + type(ex).__name__, "%s (%s): replace_table raised %r" % (case["s"], case["d"], ex))
         return
